@@ -63,9 +63,9 @@ def plan(tier: str) -> list:
                  "mode": "stub"},
                 {"name": "real", "n": 3000, "max_n": 12, "max_moves": 200,
                  "mode": "real"}]
-    return [{"name": "stub", "n": 270000, "max_n": 40, "max_moves": 2000,
+    return [{"name": "stub", "n": 800000, "max_n": 40, "max_moves": 2000,
              "mode": "stub"},
-            {"name": "real", "n": 30000, "max_n": 40, "max_moves": 2000,
+            {"name": "real", "n": 100000, "max_n": 40, "max_moves": 2000,
              "mode": "real"}]
 
 
